@@ -8,6 +8,8 @@ import Autog.Model.Layout
 import Autog.Model.Phase3
 import Autog.Model.SinkColoring
 import Autog.Model.NsPositioner
+import Autog.Model.WMedian
+import Autog.Model.Pipeline
 import Autog.Properties.C04
 /-! T-fun: the models run on the phase-boundary snapshots of real `Layout` runs; the result is compared,
     in canonical form, with the next snapshot. Driver side. -/
@@ -43,7 +45,7 @@ def firstDiffOut (a b : Out) : String :=
       | some (x, y) => s!"edge {x.src}>{x.dst} vs {y.src}>{y.dst}: {x.pts.map (·.length)} vs {y.pts.map (·.length)} points"
       | none => ""
 
-def tfunLayout (cfg : Cfg) (es : InEdges) (comps : List (List (Int × G))) (real : Out) (logged : Option (List Int)) (pivots : List (Option (Int × Int))) : List TRes := Id.run do
+def tfunLayout (cfg : Cfg) (es : InEdges) (comps : List (List (Int × G))) (real : Out) (logged : Option (List Int)) (pivots : List (Option (Int × Int))) (heavy : Bool := true) : List TRes := Id.run do
   let mut out : List TRes := []
   let mut loopsOf : List (List Nat) := []
   let mut logQ : List Int := logged.getD []
@@ -92,6 +94,15 @@ def tfunLayout (cfg : Cfg) (es : InEdges) (comps : List (List (Int × G))) (real
       if a.nodes.size > 1 && a.layers.size > 1 then
         out := out ++ [cmpG "T:break" ((breakLongEdges a).map forgetOrder) (forgetOrder b)]
         out := out ++ [("K:ordered", orderedOK b, "layer lists are not ordered by LayerPos 0..k-1")]
+        -- the whole ordering phase, exactly (bounded size: the model recounts crossings for every transposition)
+        if heavy && b.nodes.size ≤ 48 then
+          match (breakLongEdges a) >>= orderWMedian 24 with
+          | .error e => out := out ++ [("T:phase3-wmedian", false, s!"model error {e}")]
+          | .ok (g, bx) =>
+            out := out ++ [cmpG "T:phase3-wmedian" (pure g) b]
+            match logQ with
+            | x :: _ => out := out ++ [("T:wmedian-logged", (bx : Int) == x, s!"model logs {bx}, the code logged {x}")]
+            | [] => pure ()
         out := out ++ [("K:layersWF", layersWFb b, "a node occurs twice in the layer lists or does not exist")]
         if cfg.p4 == 0 then
           match scBlocks b with
@@ -133,6 +144,11 @@ def tfunLayout (cfg : Cfg) (es : InEdges) (comps : List (List (Int × G))) (real
     match stageOf c 5, stageOf c 6 with
     | some a, some b => out := out ++ [cmpG "T:post" (pure (postProcess a (loopsOf.getD ci []))) b]
     | _, _ => pure ()
+  -- the composed model, from the raw input to the public result (small inputs, configurations with exact models)
+  if heavy && cfg.p1 ≤ 1 && cfg.p4 ≤ 3 && cfg.p5 != 3 && es.length ≤ 16 then
+    match layoutModel (fun g => (orderWMedian 24 g).map (·.1)) cfg es with
+    | .error e => out := out ++ [("T:pipeline", false, s!"model error {e}")]
+    | .ok m => out := out ++ [("T:pipeline", m == real, firstDiffOut m real)]
   -- result collection
   let finals := comps.filterMap fun c => stageOf c 6
   if finals.length == comps.length then
